@@ -133,6 +133,8 @@ def center_case(p):
     rng = np.random.default_rng(p['seed'])
     nf, k = p['nf'], p['k']
     X = rng.normal(size=(p['rows'], nf)) * rng.uniform(0.5, 3, size=nf) + rng.normal(size=nf)
+    if p['seed'] % 3 == 0:
+        X = np.round(7 * X).astype(np.int64)         # whole-number data handed over as an integer-typed matrix
     import warnings
     with warnings.catch_warnings():
         warnings.simplefilter('ignore')
